@@ -38,7 +38,12 @@ def run_one(prop, tier, seed, root=None, quiet=False):
             print("SELFTEST property=%s faults %d/%d detected, refactorings %d/%d silent, seeded %d/%d detected"
                   % (prop, tally["faults_detected"], tally["faults_applied"], tally["refactorings_silent"], tally["refactorings_applied"],
                      tally["seeded_detected"], tally["seeded_applied"]))
-        return report.emit(res, tier, seed, t0, technique=getattr(mod, "TECHNIQUE", ""))
+        try:
+            from .specs.manifest_table import CLAIMED
+            technique = CLAIMED[prop]["technique"]
+        except Exception:
+            technique = getattr(mod, "TECHNIQUE", "")
+        return report.emit(res, tier, seed, t0, technique=technique)
     except AnalysisError as e:
         print("ANALYSIS-ERROR property=%s obligation=anchor reason=%s" % (prop, e))
         return 2
